@@ -57,6 +57,8 @@ type Gen struct {
 	W    *World
 	Last *Snap  // observation after the previous command
 	Idx  uint64 // last raft index used
+
+	prevKV *KVArg // the previous set / cas request (to repeat it verbatim)
 }
 
 func weighted(r *hx.RNG, w map[string]int, order []string) string {
@@ -150,7 +152,52 @@ func (g *Gen) kvModify(key string) (uint64, bool) {
 	return 0, false
 }
 
+// repeatStored builds a write that is byte-identical to a stored entry (same key, value, flags, lock
+// counter; cas with the current index), with the request's session field empty, equal to the holder, or a
+// stray session id: through set / cas the session field is never stored, so such a write must be a no-op
+// whatever it says — on locked and on unlocked keys.
+func (g *Gen) repeatStored(verb string) *KVArg {
+	e := hx.Pick(g.R, g.Last.T.KVs)
+	a := &KVArg{Verb: verb, Key: e.Key, Val: append([]byte(nil), e.Value...), Flags: e.Flags, LockIdx: e.LockIndex}
+	switch g.R.Intn(4) {
+	case 0:
+		a.Session = e.Session
+	case 1:
+		a.Session = hx.Pick(g.R, Sessions)
+	case 2:
+		a.Session = SessionUpper
+	}
+	if verb == "cas" {
+		a.ModIdx = e.ModifyIndex
+	}
+	return a
+}
+
 func (g *Gen) kvArg(verb string) *KVArg {
+	if (verb == "set" || verb == "cas") && g.Last != nil && len(g.Last.T.KVs) > 0 {
+		switch n := g.R.Intn(100); {
+		case n < 14:
+			a := g.repeatStored(verb)
+			g.prevKV = a
+			return a
+		case n < 20 && g.prevKV != nil && g.prevKV.Key != "":
+			// the previous write again, verbatim (cas: with whatever index the key has now)
+			a := *g.prevKV
+			a.Verb = verb
+			if verb == "cas" {
+				a.ModIdx, _ = g.kvModify(a.Key)
+			}
+			return &a
+		}
+	}
+	a := g.kvArgFresh(verb)
+	if verb == "set" || verb == "cas" {
+		g.prevKV = a
+	}
+	return a
+}
+
+func (g *Gen) kvArgFresh(verb string) *KVArg {
 	a := &KVArg{Verb: verb, Key: g.key(), Val: hx.Pick(g.R, Values), Flags: uint64(g.R.Intn(3))}
 	if verb == "delete-tree" || verb == "get-tree" {
 		a.Key = g.prefix()
